@@ -34,6 +34,9 @@ import (
 	"context"
 	"errors"
 	"fmt"
+	"path/filepath"
+	"runtime/debug"
+	"testing"
 
 	"google.golang.org/grpc"
 	"pgregory.net/rapid"
@@ -227,4 +230,51 @@ func (w *world) holdPartitions() (drain func(limit int) bool, release func()) {
 		return false
 	}
 	return drain, func() { replica.NewPartitionFn = replica.NewPartition }
+}
+
+// TestRegression_FlushAfterRemovalTaskClosedAnAcknowledgedLog is an OBSERVATION (it only logs; C07 quantifies
+// over node deaths, it does not forbid them): a family with the logs of two leaders (failover inside the
+// family window). Log 1 is flushed and acknowledged, log 2 still has an applied, unflushed entry. The
+// write-ahead-log GC task finds every consumer group of log 1 empty: the partition is expired, it is stopped,
+// closed and its directory removed (replica/wal.go destroy). The data family keeps the acknowledge callback
+// which the local replicator of log 1 registered (DataFamily.AckSequence has no counterpart which removes it);
+// the next data flush of the family (periodic job, or the final one of a graceful shutdown) calls it with the
+// unchanged sequence of leader 1, consumerGroup.Ack accepts ack == last ack and stores into the unmapped meta
+// page: SIGSEGV, the storage node dies inside the flush (before the acknowledgement of log 2, so nothing is
+// lost: log 2 is replayed). The same happens when the task only stops the caught-up local replicator of a log
+// which stays because its follower group still has data (Partition.IsExpire -> stopReplicator).
+// Proposed fix: proposed_fix_ack_into_closed_consumer_group.diff (Ack of a closed group is a no-op).
+func TestRegression_FlushAfterRemovalTaskClosedAnAcknowledgedLog(t *testing.T) {
+	dir := t.TempDir()
+	p := startPlainNode(t, filepath.Join(dir, "node"), nodeID, 2)
+	p.put(nodeID, 0, 0)
+	replica.VerifReplicaStep(p.parts[nodeID], nodeID)
+	if err := p.n.FlushDB(p.db); err != nil {
+		t.Fatalf("harness: flush: %v", err)
+	}
+	p.put(2, 0, 1)
+	replica.VerifReplicaStep(p.parts[2], nodeID)
+	if !p.parts[nodeID].IsExpire() {
+		t.Logf("the flushed and acknowledged log of leader 1 is not expired: the observation does not reproduce")
+		p.crash(filepath.Join(dir, "image"))
+		return
+	}
+	// what writeAheadLog.destroy does with an expired partition
+	p.parts[nodeID].Stop()
+	_ = p.parts[nodeID].Close()
+	died := func() (r any) {
+		debug.SetPanicOnFault(true)
+		defer func() { r = recover() }()
+		_ = p.family.Flush()
+		return nil
+	}()
+	if died != nil {
+		t.Logf("OBSERVATION (not asserted): data flush of a family after the log GC task closed the acknowledged log of another leader: the acknowledge callback stores into the unmapped consumer-group page, the process would die with: %v", died)
+	} else {
+		t.Logf("the data flush after the removal of the acknowledged log completes: the observation does not reproduce")
+	}
+	func() {
+		defer func() { _ = recover() }()
+		p.crash(filepath.Join(dir, "image"))
+	}()
 }
